@@ -77,7 +77,7 @@ func TestVerifRecC16(t *testing.T) {
 			e["small"], e["smallx"] = o[0].IsSmallOrder(), o[1].IsSmallOrder()
 			e["timeout"] = false
 			w.emit(e)
-		case <-time.After(10 * time.Second):
+		case <-time.After(90 * time.Second): // the operation takes well under a millisecond; the margin is for a heavily loaded machine
 			e["timeout"] = true
 			w.emit(e)
 			return // the spinning goroutine cannot be stopped; the deferred close flushes what was recorded
